@@ -239,6 +239,74 @@ def tar_names(prog, f):
 
 
 # ------------------------------------------------------------------------------
+# skip conditions: tests not decided by the action with one branch from which
+# the staging effect is reachable and one from which it is not
+#
+def skip_edges(stager, f, g, par, pruned, body, eff_ids, classify=True):
+    """[(test cfg node, label of the skipping edge)]"""
+    pr = set(pruned)
+    after = set()
+    for e in eff_ids:
+        after |= set(feasible(g, e, pruned, within=body)) - {e}
+    out = []
+    for nid in sorted(par):
+        n = g.nodes[nid]
+        if n.kind != 'test' or nid in after:
+            continue
+        outs = [e for e in g.succ[nid] if e.label in ('T', 'F')
+                and (nid, e.label) not in pr]
+        if len(outs) < 2:
+            continue                      # decided by the action itself
+        can = {}
+        for e in outs:
+            if e.dst not in body:
+                can[e.label] = (False, set())
+            else:
+                r = set(feasible(g, e.dst, pruned, within=body))
+                can[e.label] = (bool(r & eff_ids), r)
+        if can['T'][0] == can['F'][0]:
+            continue
+        lab = 'T' if not can['T'][0] else 'F'
+        # a branch which only ends in a raise refuses the directive, it does
+        # not skip it
+        edge = [e for e in outs if e.label == lab][0]
+        normal = edge.dst not in body
+        for r in can[lab][1]:
+            for e2 in g.succ[r]:
+                # leaving the body (the loop head is not part of it) other
+                # than by an exception: continue, fall through, break, return
+                if e2.label != 'exc' and (r, e2.label) not in pr and \
+                        e2.dst not in body:
+                    normal = True
+        if not normal:
+            continue
+        if classify:
+            # the skipping branch must be understood: a call which cannot be
+            # classified may be the staging operation
+            for r in sorted(can[lab][1]):
+                for c in I.stmt_calls(g.nodes[r]):
+                    if stager.classify(c, f) == 'unknown':
+                        raise AnalysisError(
+                            'UNRECOGNISED-IDIOM %s: the branch taken when `%s` '
+                            'is %s reaches no known staging operation, but '
+                            'calls `%s` which the recogniser cannot classify'
+                            % (f.where, short(n.ast, 50), lab == 'T',
+                               short(c, 50)))
+        out.append((n, lab))
+    return out
+
+
+def is_tar_name_test(atom):
+    """`<name of the target> ==/!= '<..>.tar' % ..`: tells the directive
+    which the client side stager added for its tarball from the directives
+    which were packed into it (F06 repair)"""
+    return isinstance(atom, ast.Compare) and len(atom.ops) == 1 and \
+        isinstance(atom.ops[0], (ast.Eq, ast.NotEq)) and any(
+            isinstance(n, ast.Constant) and isinstance(n.value, str) and
+            n.value.endswith('.tar') for n in walk(atom))
+
+
+# ------------------------------------------------------------------------------
 # stager model: intake filter and handler
 #
 class Stager:
@@ -298,6 +366,20 @@ class Stager:
                        within=g.loop_body[self.loop.id])
         hit = [n for n in self.appends if n.id in par]
         return bool(hit), par
+
+    def intake_skips(self, value):
+        """conditions other than the action under which an admitted directive
+        is not collected"""
+        f, g = self.work, self.g
+        ev = lambda atom: eval_const_atom(self.prog, f, atom,
+                                          self.intake_exprs, value)
+        pruned = pruned_edges(g, ev)
+        body = g.loop_body[self.loop.id]
+        par = feasible(g, loop_start(g, self.loop.id), pruned, within=body)
+        eff = {n.id for n in self.appends if n.id in par}
+        if not eff:
+            return []
+        return skip_edges(self, f, g, par, pruned, body, eff, classify=False)
 
     # handler: the method which `work` calls with the collected list
     def _handler(self):
@@ -449,7 +531,7 @@ class Stager:
         if not loops:
             raise AnalysisError('UNRECOGNISED-IDIOM %s: no loop over the '
                                 'directives %s' % (f.where, sorted(names)))
-        res = {'effects': [], 'trace': None, 'dead': []}
+        res = {'effects': [], 'trace': None, 'dead': [], 'skips': []}
         for h in loops:
             sdv = h.ast.target.id
             body = g.loop_body[h.id]
@@ -461,14 +543,16 @@ class Stager:
                     raise AnalysisError('UNRECOGNISED-IDIOM %s: the handler '
                                         'loop rewrites the action' % f.where)
             ev = lambda atom: eval_const_atom(self.prog, f, atom, exprs, value)
-            par = feasible(g, loop_start(g, h.id), pruned_edges(g, ev),
-                           within=body)
+            pruned = pruned_edges(g, ev)
+            par = feasible(g, loop_start(g, h.id), pruned, within=body)
             found = False
+            eff_ids = set()
             for nid in sorted(par):
                 n = g.nodes[nid]
                 eff = self.effect_of(n)
                 if eff:
                     res['effects'].append((eff[0], eff[1], n))
+                    eff_ids.add(nid)
                     found = True
                     continue
                 # hand-over into another list which a later loop works on
@@ -481,7 +565,13 @@ class Stager:
                             c.func.value.id not in names and depth < 2:
                         sub = self.handles(value, c.func.value.id, depth + 1)
                         res['effects'] += sub['effects']
-                        found = found or bool(sub['effects'])
+                        res['skips'] += sub['skips']
+                        if sub['effects']:
+                            eff_ids.add(nid)
+                            found = True
+            if found:
+                res['skips'] += skip_edges(self, f, g, par, pruned, body,
+                                           eff_ids)
             if not found:
                 # "skipped" must be told from "not understood": any call on
                 # these paths which is neither logging nor known to be pure
@@ -623,6 +713,65 @@ def r11_1(prog, rep, rid='R11.1'):
         if not n_adm:
             raise AnalysisError('%s: the intake filter of %s admits no action'
                                 % (rid, s.work.where))
+
+
+# ------------------------------------------------------------------------------
+# R11.1b  admitted directives are not skipped under other conditions
+#
+def r11_1b(prog, rep, rid='R11.1b'):
+    rep.rule(rid, 'an admitted directive is carried out on every path through '
+             'one loop iteration: the only tests which may lead past the '
+             'staging operation are tests of the action itself (and the '
+             'tarball-name test of TARBALL directives); one obligation per '
+             'stager and action', minimum=24)
+    acts = action_values(prog)
+    tarball = acts['TARBALL']
+    for s in stagers(prog):
+        found = {}            # (where, cond) -> [actions]
+        per_action = {}
+        for name, value in acts.items():
+            if not s.admits(value)[0]:
+                per_action[name] = None
+                continue
+            sk = [(s.work, n, lab) for n, lab in s.intake_skips(value)]
+            sk += [(s.handler, n, lab) for n, lab in
+                   s.handles(value)['skips']]
+            bad = []
+            for fn, n, lab in sk:
+                if value == tarball and is_tar_name_test(n.ast):
+                    rep.info(rid, fn, '%s: TARBALL directives are skipped '
+                             'when `%s` is %s (the tarball is unpacked once, '
+                             'for the directive which names it)'
+                             % (s.label, short(n.ast, 60), lab == 'T'))
+                    continue
+                cond = short(n.ast, 80) if lab == 'T' else \
+                    'not (%s)' % short(n.ast, 80)
+                bad.append((fn, n, cond))
+                found.setdefault((fn.where, cond), []).append(name)
+            per_action[name] = bad
+        for name, bad in per_action.items():
+            if bad is None:
+                rep.ok(rid, s.handler, '%s: %s is not admitted (nothing to '
+                       'show)' % (s.label, name), s.work.loc(s.loop.ast))
+            elif not bad:
+                rep.ok(rid, s.handler, '%s: %s directives are carried out on '
+                       'every path of the directive loop (or the stager '
+                       'raises)' % (s.label, name), s.handler.loc())
+            for fn, n, cond in bad or []:
+                names = found[(fn.where, cond)]
+                rep.bad(rid, fn, 'skipped under: %s' % cond,
+                        '%s stager: admitted directive skipped under `%s`: '
+                        '%s directives which %s admits are passed over in %s '
+                        'without a staging operation and without an error '
+                        'when this condition holds, although the condition '
+                        'is not a property of the action' % (
+                            s.label, cond, '/'.join(names), s.work.qual,
+                            fn.qual), fn.loc(n.ast),
+                        history='a task with %s=[{source: a, target: b, '
+                        'action: %s}] for which `%s` holds: the directive is '
+                        'not carried out (the target keeps whatever it '
+                        'held) and the task is advanced as staged'
+                        % (s.key, names[0], cond))
 
 
 # ------------------------------------------------------------------------------
@@ -1112,6 +1261,150 @@ def r11_6(prog, rep, rid='R11.6'):
 
 
 # ------------------------------------------------------------------------------
+# R11.6b  the sandbox URLs a Session keeps in its cache are not changed through
+#         an alias
+#
+SESSION = ('session.py', 'Session')
+COPIES  = {'str', 'repr', 'copy.copy', 'copy.deepcopy', 'deepcopy'}
+
+
+def cached_getters(prog, cls):
+    """methods which, on some path, return an object held in self._cache"""
+    out = {}
+    for name, m in cls.methods.items():
+        for n in walk(m.node):
+            if isinstance(n, ast.Return) and n.value is not None:
+                e = n.value
+                while isinstance(e, ast.Subscript):
+                    e = e.value
+                if dotted(e) == 'self._cache' and e is not n.value:
+                    out[name] = m
+    return out
+
+
+def alias_mutations(prog, f, is_getter_call):
+    """[(call, bound name or None, mutating stmt or None)] for every call of a
+    cached getter in f: how its result is used"""
+    g = cfg_of(f)
+    smap = I.stmt_node_map(g)
+    out = []
+    assigns = [n for n in walk(f.node) if isinstance(n, ast.Assign)]
+    for c in calls_in(f.node):
+        if not is_getter_call(c):
+            continue
+        bound = None
+        for a in assigns:
+            if a.value is c and len(a.targets) == 1 and \
+                    isinstance(a.targets[0], ast.Name):
+                bound = (a.targets[0].id, a)
+        if bound is None:
+            # the result used on the spot: a store through it?
+            hit = None
+            for kind, target, stmt in I.stores(f.node):
+                e = target
+                while isinstance(e, (ast.Attribute, ast.Subscript)):
+                    e = e.value
+                    if e is c:
+                        hit = stmt
+            out.append((c, None, hit))
+            continue
+        name, a = bound
+        # names which refer to the same object: plain copies of the name
+        names = {name}
+        for _ in range(3):
+            for b in assigns:
+                if isinstance(b.value, ast.Name) and b.value.id in names:
+                    for t in b.targets:
+                        if isinstance(t, ast.Name):
+                            names.add(t.id)
+        dnode = smap.get(id(a))
+        hit = None
+        for kind, target, stmt in I.stores(f.node):
+            r = root_name(target)
+            if r not in names:
+                continue
+            mnode = smap.get(id(stmt))
+            if dnode is None or mnode is None:
+                continue
+            # definitions which re-bind the names (e.g. x = ru.Url(x)) end the
+            # alias; the mutation counts if it is reachable without them
+            kills = set()
+            for b in assigns:
+                if b is a or (isinstance(b.value, ast.Name) and
+                              b.value.id in names):
+                    continue
+                if any(isinstance(t, ast.Name) and t.id == r
+                       for t in b.targets):
+                    kn = smap.get(id(b))
+                    if kn is not None:
+                        kills.add(kn.id)
+            starts = [e.dst for e in g.succ[dnode.id] if e.label != 'exc']
+            if mnode.id in g.reachable(starts, skip_nodes=kills):
+                hit = stmt
+        out.append((c, name, hit))
+    return out
+
+
+def r11_6b(prog, rep, rid='R11.6b', sweep=False):
+    cls = prog.cls(*SESSION)
+    getters = cached_getters(prog, cls)
+    if len(getters) < 4:
+        raise AnalysisError('%s: only %d Session methods return an object of '
+                            'self._cache (%s)' % (rid, len(getters),
+                                                  sorted(getters)))
+    if not sweep:
+        rep.rule(rid, 'the result of a Session getter which returns an object '
+                 'held in self._cache (%s) is copied before it is changed: no '
+                 'attribute store / augmented assignment through a name bound '
+                 'to it' % ', '.join(sorted(getters)), minimum=5)
+        funcs = list(cls.methods.values())
+
+        def is_getter_call(c, f):
+            callee = prog.resolve_call(f, c, cls)
+            return callee is not None and callee.cls is cls and \
+                callee.name in getters
+    else:
+        rep.rule(rid, 'sweep: the same over every caller in the package '
+                 '(calls matched by the getter names, which only Session '
+                 'defines)', minimum=19)
+        unique = {n for n in getters if not any(
+            n in k.methods for k in prog.all_classes() if k is not cls)}
+        funcs = []
+        for m in prog.modules.values():
+            funcs += list(m.funcs.values())
+            for k in m.classes.values():
+                if k is not cls:
+                    funcs += list(k.methods.values())
+
+        def is_getter_call(c, f):
+            return isinstance(c.func, ast.Attribute) and \
+                c.func.attr in unique
+    for f in sorted(funcs, key=lambda x: x.where):
+        uses = alias_mutations(prog, f, lambda c: is_getter_call(c, f))
+        if uses:
+            rep.saw(f)
+        for c, name, hit in uses:
+            gname = c.func.attr if isinstance(c.func, ast.Attribute) else '?'
+            rep.check(hit is None, rid, f,
+                      '%s: the cached result of %s is %s' % (
+                          f.qual, gname, 'not changed through %r' % name
+                          if name else 'copied / only read'),
+                      construct=hit if hit is not None else c,
+                      message='%s binds the result of %s() - the very object '
+                      'Session keeps in self._cache - to %r and then changes '
+                      'it with `%s` without copying it first (ru.Url(x)): '
+                      'every later %s() returns the changed URL, so the '
+                      'sandbox contexts of the stagers resolve to the wrong '
+                      'directory' % (f.qual, gname, name or 'nothing',
+                                     short(hit, 60) if hit is not None else '',
+                                     gname),
+                      loc=f.loc(hit if hit is not None else c),
+                      history='first call of %s, then %s() again: the second '
+                      'result differs from the first (e.g. resource:// '
+                      'resolves one level too deep)' % (f.qual, gname))
+
+
+# ------------------------------------------------------------------------------
 # R11.7  skip on failure
 #
 def r11_7(prog, rep, rid='R11.7'):
@@ -1266,14 +1559,17 @@ def run(prog, rep, tier):
         '(DESIGN R11.2)',
     ]
     r11_1(prog, rep)
+    r11_1b(prog, rep)
     r11_2(prog, rep)
     r11_3(prog, rep)
     r11_4(prog, rep)
     r11_5(prog, rep)
     r11_6(prog, rep)
+    r11_6b(prog, rep)
     r11_7(prog, rep)
     if tier == 'thorough':
         r11_4s(prog, rep)
+        r11_6b(prog, rep, rid='R11.6s', sweep=True)
 
 
 # ------------------------------------------------------------------------------
@@ -1306,6 +1602,28 @@ MUTATIONS = [
         (_AI, _GUARD, "            if action in [rpc.COPY, rpc.LINK, rpc.MOVE, rpc.DOWNLOAD,\n                          rpc.TARBALL]:")]),
     dict(name='R11.1 untar branch dropped, tarballs go to the helper', rules=('R11.1',), edits=[
         (_AI, "            if action == rpc.TARBALL:\n", "            if False:\n")]),
+    dict(name='R11.1b seed C11-b: COPY/LINK skipped when the target file exists', rules=('R11.1b',), edits=[
+        (_AI, "                assert tgt.schema == 'file', 'staging tgt expected as file://'\n\n            if action == rpc.TARBALL:",
+              "                assert tgt.schema == 'file', 'staging tgt expected as file://'\n\n            if action in [rpc.COPY, rpc.LINK] and os.path.isfile(tgt.path):\n                self._log.debug('%s: %s exists, skip', did, tgt.path)\n                self._prof.prof('staging_in_skip', uid=uid, msg=did)\n                continue\n\n            if action == rpc.TARBALL:")]),
+    dict(name='R11.1b agent output skips directives whose source is missing', rules=('R11.1b',), edits=[
+        (_AO, "            assert src.schema == 'file', 'staging src must be file://'\n",
+              "            assert src.schema == 'file', 'staging src must be file://'\n\n            if not os.path.exists(src.path):\n                self._log.warn('%s: no such file %s', did, src.path)\n                continue\n")]),
+    dict(name='R11.1b client intake takes only directives with flags', rules=('R11.1b',), edits=[
+        (_TI, "                if sd['action'] in [rpc.TRANSFER, rpc.TARBALL]:",
+              "                if sd['action'] in [rpc.TRANSFER, rpc.TARBALL] and sd.get('flags'):")]),
+    dict(name='R11.1b client output stages only when the helper call is enabled by a flag', rules=('R11.1b',), edits=[
+        (_TO, "            self._stager.handle_staging_directive(sd)\n            self._prof.prof('staging_in_stop', uid=uid, msg=sd['uid'])\n\n        # all staging is done -- at this point the task is final",
+              "            if sd['flags'] & rpc.CREATE_PARENTS:\n                self._stager.handle_staging_directive(sd)\n            self._prof.prof('staging_in_stop', uid=uid, msg=sd['uid'])\n\n        # all staging is done -- at this point the task is final")]),
+    dict(name='R11.6b seed C11-a: session sandbox appended to the cached resource sandbox', rules=('R11.6b',), edits=[
+        ('session.py', "                resource_sandbox      = self._get_resource_sandbox(pilot)\n                session_sandbox       = ru.Url(resource_sandbox)\n                session_sandbox.path += '/%s' % self.uid",
+                       "                session_sandbox       = self._get_resource_sandbox(pilot)\n                session_sandbox.path += '/%s' % self.uid")]),
+    dict(name='R11.6b endpoint fs cleared on the cached resource sandbox', rules=('R11.6b',), edits=[
+        ('session.py', "                endpoint_fs       = ru.Url(resource_sandbox)\n", "                endpoint_fs       = resource_sandbox\n")]),
+    dict(name='R11.6b pilot sandbox appended to the cached session sandbox', rules=('R11.6b',), edits=[
+        ('session.py', "                pilot_sandbox       = ru.Url(session_sandbox)\n", "                pilot_sandbox       = session_sandbox\n")]),
+    dict(name='R11.6b default task sandbox built on the cached pilot sandbox', rules=('R11.6b',), edits=[
+        ('session.py', "            task_sandbox = ru.Url(self._get_pilot_sandbox(pilot))\n            task_sandbox.path += \"/%s/\" % task['uid']",
+                       "            task_sandbox = self._get_pilot_sandbox(pilot)\n            task_sandbox.path += \"/%s/\" % task['uid']")]),
     dict(name='R11.2 agent intake filter loses DOWNLOAD', rules=('R11.2',), edits=[
         (_AI, "                if sd['action'] in [rpc.LINK, rpc.COPY, rpc.MOVE,\n                                    rpc.TARBALL, rpc.DOWNLOAD]:",
               "                if sd['action'] in [rpc.LINK, rpc.COPY, rpc.MOVE,\n                                    rpc.TARBALL]:")]),
@@ -1362,6 +1680,19 @@ SILENT = [
         (_AI, _GUARD, "            if not (action in [rpc.COPY, rpc.LINK, rpc.MOVE, rpc.DOWNLOAD,\n                               rpc.TARBALL]):")]),
     dict(name='agent input guard as a chain of comparisons', edits=[
         (_AI, _GUARD, "            if action != rpc.COPY and action != rpc.LINK and \\\n               action != rpc.MOVE and action != rpc.DOWNLOAD and \\\n               action != rpc.TARBALL:")]),
+    dict(name='a test which only logs, both branches stage', edits=[
+        (_AI, "                assert tgt.schema == 'file', 'staging tgt expected as file://'\n\n            if action == rpc.TARBALL:",
+              "                assert tgt.schema == 'file', 'staging tgt expected as file://'\n\n            if os.path.isfile(tgt.path):\n                self._log.debug('%s: overwrite %s', did, tgt.path)\n\n            if action == rpc.TARBALL:")]),
+    dict(name='tarball name test with swapped operands', edits=[
+        (_AI, "                if os.path.basename(tgt.path) != '%s.tar' % uid:", "                if '%s.tar' % uid != os.path.basename(tgt.path):")]),
+    dict(name='missing source refused with an exception (not skipped)', edits=[
+        (_AO, "            assert src.schema == 'file', 'staging src must be file://'\n",
+              "            assert src.schema == 'file', 'staging src must be file://'\n\n            if not os.path.exists(src.path):\n                raise ValueError('no such file: %s' % src.path)\n")]),
+    dict(name='cached resource sandbox copied through its string', edits=[
+        ('session.py', "                session_sandbox       = ru.Url(resource_sandbox)\n", "                session_sandbox       = ru.Url(str(resource_sandbox))\n")]),
+    dict(name='getter result re-bound to a copy under the same name', edits=[
+        ('session.py', "                resource_sandbox      = self._get_resource_sandbox(pilot)\n                session_sandbox       = ru.Url(resource_sandbox)\n                session_sandbox.path += '/%s' % self.uid",
+                       "                session_sandbox       = self._get_resource_sandbox(pilot)\n                session_sandbox       = ru.Url(session_sandbox)\n                session_sandbox.path += '/%s' % self.uid")]),
     dict(name='intake filter in early-continue form', edits=[
         (_AO, "                    if sd['action'] in [rpc.LINK, rpc.COPY, rpc.MOVE]:\n                        actionables.append(sd)\n",
               "                    if sd['action'] not in [rpc.LINK, rpc.COPY, rpc.MOVE]:\n                        continue\n                    actionables.append(sd)\n")]),
